@@ -727,7 +727,7 @@ def case_classes(c, res, aspect):
     any other wrong value is a VIOLATION."""
     cl = []
     if c["kind"] == "alg":
-        if aspect == "log_norm@product-drops":
+        if aspect in ("log_norm@product-drops", "exception@transformed-no-lognorm"):
             cl.append("product-drops-lognorm")
         # (log_norm@fixed-sdiv is the former finding fixed by 7b98f8b: no class any more, a recurrence is a VIOLATION)
         if aspect in ("mixed@broadcast-axis", "mixed@raises") and c.get("mixed"):
@@ -783,17 +783,18 @@ def oracle_alg(c, res):
     exprs = dict((nm, e) for nm, e in c["exprs"])
     if c.get("mixed"):
         return oracle_mixed(c, res)
-    # the only legitimate exception: <base message> / <transformed message> reads other.log_norm, which a
-    # TransformedMessage does not have (AttributeError); predicted from the expression, everything else is a failure
+    # one exception belongs to the log_norm finding: <base message> / <transformed message> reads other.log_norm, which a
+    # TransformedMessage does not have (AttributeError); it is predicted from the expression and pinned to that exception
+    # type, every other exception is a plain failure (when the division works the laws are simply checked)
     raised = False
     for name in R:
         expected = base_div_transformed(exprs[name], env)
         if "exc" in R[name]:
             raised = True
-            if not (expected and R[name]["exc"] == "AttributeError"):
+            if expected and R[name]["exc"] == "AttributeError":
+                out.append(("exception@transformed-no-lognorm", "%s: <base> / <transformed> raises AttributeError (TransformedMessage has no log_norm)" % name))
+            else:
                 out.append(("exception", "%s raised %s: %s" % (name, R[name]["exc"], R[name].get("msg"))))
-        elif expected:
-            out.append(("exception-expected", "%s: <base> / <transformed> did not raise" % name))
     for name in R:
         if "ok" in R[name]:
             d0 = base_of(R[name]["ok"])
@@ -1340,7 +1341,8 @@ def coq_proj(c, res):
     if "ok" not in res:
         if c.get("t") is None:
             return "CProjExc %s" % CFAM[c["fam"]]
-        return "CTProjExc %s %s %s %s" % (c_tabs(res["tabs"]), CFAM[c["fam"]], cbool(c["scalar"]), colsx0)
+        return "CTProjExc %s %s %s %s %s" % (c_tabs(res["tabs"]), CFAM[c["fam"]], cbool(c["scalar"]),
+                                             clist([c_transform(x) for x in c["t"]["stack"]]), colsx0)
     d = res["ok"]
     b = base_of(d)
     colsx = clist([cpair(clist([cf(X[i][j]) for i in range(n)]), clist([cf(LW[i][j]) for i in range(n)])) for j in range(dd)])
@@ -1351,9 +1353,9 @@ def coq_proj(c, res):
         return "CProj %s %s %s %s %s %s %s %s" % (c_tabs(res["tabs"]), CFAM[c["fam"]], cbool(c["scalar"]), colsx,
                                                  cZ(c["id"]), cf(c["lo"]), cf(c["hi"]), obs)
     t = d["t"]
-    return "CTProj %s %s %s %s %s %s %s %s %s %s %s" % (
+    return "CTProj %s %s %s %s %s %s %s %s %s %s %s %s %s" % (
         c_tabs(res["tabs"]), CFAM[c["fam"]], cbool(c["scalar"]), colsx,
-        clist([c_transform(x) for x in c["t"]["stack"]]), copt(c["t"]["id"], cZ),
+        clist([c_transform(x) for x in c["t"]["stack"]]), copt(c["t"]["id"], cZ), cf(c["lo"]), cf(c["hi"]),
         clist([c_transform(x) for x in t["stack"]]), copt(t["id"], cZ), cf(t["lo"]), cf(t["hi"]), obs)
 
 
